@@ -105,6 +105,35 @@ check(
     "DESIGN.md §4 C11",
 )
 
+check(
+    "C07", "exploration",
+    "Hypothesis-generated hierarchies and method sets in which every method delegates through call_next / f.next / "
+    "recurse; scripts of up to 8 delegations with same or other arguments; each delegation step is compared with the "
+    "reference chain (successive resolutions with the winner removed). Sampled.",
+    "Plain-class annotations only (order fully specified); trusts vlib/model.chain.",
+    "property-based differential testing of delegation traces against a reference chain model",
+    "DESIGN.md §4 C07",
+)
+check(
+    "C08", "exploration",
+    "Hypothesis-generated derivation graphs (copies, variants, mixin fan-in) with recursive walkers and leaf methods, "
+    "nested inputs, calls alternating between nodes; results compared structurally with a reference interpreter that "
+    "re-enters the called node. Sampled.",
+    "Effective method set = parents overlaid by own; conflicting signatures from two parents not asserted.",
+    "property-based testing against a reference interpreter over function-derivation graphs",
+    "DESIGN.md §4 C08",
+)
+check(
+    "C16", "exploration",
+    "Hypothesis histories over a graph of functions (root/copy/mixins/add_mixins/register/unregister/call, with and "
+    "without linkback); every call and a final probe of every node equal a fresh function built from the model's "
+    "effective method set; ancestors of used functions must refuse modification (non-linkback) or propagate it "
+    "(linkback). Sampled.",
+    "Calls are explicit operations (use locks ancestors); mixed linkback paths may refuse or propagate.",
+    "stateful model-based testing with a fresh-build differential oracle (Hypothesis)",
+    "DESIGN.md §4 C16",
+)
+
 ALL = [f"C{i:02d}" for i in range(1, 21)]
 REASON_PENDING = "check not built yet in this revision of /verif (work in progress; see DESIGN.md §8)"
 
